@@ -43,7 +43,7 @@ LEVEL_NOTE = "Trusted: the reference evaluator (workloads/gen.py: expected), sim
 MINIMIZE = None
 RULE = (
     "one run = program (depth <= 2, fan-out <= 2, failures on attempts 1..k with retriable / non-retriable kinds, groups) x flavour "
-    "(plain / direct / direct-parallel) x max_retries in 0..2 x retry_for; non-trivial = the program has a failing node or a sub-task; "
+    "(plain / direct / direct-parallel) x max_retries in 0..2 x retry_for x schedule (rand / pct) x fault (none / one worker stall at its K-th yield / slow hand-over: a short stall before every effect inside one hand-over operation); non-trivial = the program has a failing node or a sub-task; "
     "distinct = hash of (program, options)."
 )
 ASSUMPTIONS = [
